@@ -166,6 +166,26 @@ fn lines<const L: usize>(alphabet: &[u8]) {
     cover!(L < 2 || n == 2, "two lines");
     cover!(n == 0, "no line (empty span at end of input)");
 }
+/// lines_span() on a fixed text, every span of it (cheap enough for the quick tier).
+fn lines_fixed(text: &'static str, max_lines: usize) {
+    let s = text;
+    let (m, t) = both(s);
+    let mut im = m.lines_span();
+    let mut it = t.lines_span();
+    let mut k = 0;
+    let mut n = 0;
+    while k < max_lines + 1 {
+        let a = im.next();
+        let b = it.next();
+        if a.is_some() {
+            n += 1;
+        }
+        same(a, b);
+        k += 1;
+    }
+    cover!(n >= 2, "two or more lines");
+    cover!(n == 1 && m.end() < s.len(), "one line, span ends before the end of input");
+}
 fn lines_str<const L: usize>() {
     let buf = nd::ascii_buf::<L>(b"\n\ra");
     let s = nd::as_str(&buf);
@@ -213,6 +233,10 @@ harnesses! {
     fn c13_lines_span_2() [] : "T|lines_span() vs pest; every string of 2 bytes over {LF,CR,'a'}, every span" { lines::<2>(b"\n\ra") }
     #[kani::unwind(5)]
     fn c13_lines_span_2_lf() [] : "X|lines_span() vs pest; every string of 2 bytes over {LF,'a'}, every span" { lines::<2>(b"\na") }
+    #[kani::unwind(6)]
+    fn c13_lines_fixed_a() [] : "X|lines_span() vs pest on the fixed text LF LF 'b', every span (incl. spans ending exactly on a line start that is not the end of input)" { lines_fixed("\n\nb", 3) }
+    #[kani::unwind(6)]
+    fn c13_lines_fixed_b() [] : "T|lines_span() vs pest on the fixed text 'a' CR LF 'b', every span" { lines_fixed("a\r\nb", 2) }
     #[kani::unwind(5)]
     fn c13_lines_str_2() [] : "Q|lines() first item vs pest; 2 bytes over {LF,CR,'a'}" { lines_str::<2>() }
     #[kani::unwind(6)]
